@@ -11,10 +11,6 @@ Fixpoint toy_fold (s : string) (acc : Z) : Z :=
   match s with EmptyString => acc | String c r => toy_fold r (toy_step acc c) end.
 Definition toyH (s : string) : string := le_bytes 16 (toy_fold s 7).
 
-(* the digest of the last value of a sequence of hash_object calls that share one Cache *)
-Definition hash_in (H : string -> string) (ctx : list pyval) (v : pyval) : res string :=
-  last (hash_all H (ctx ++ [v]) []) (Err EFuel).
-
 (* ---------------------------------------------------------------- cycles: a = [1, b]; b = [2, a] *)
 Definition cyc_a : pyval := VList 1 [VInt 1; VList 2 [VInt 2; VRef 1]].
 Definition cyc_b : pyval := VList 2 [VInt 2; VList 1 [VInt 1; VRef 2]].
